@@ -18,7 +18,8 @@ WktOk(e) == /\ e.tokens = WPrint(e.g)                                   \* the t
             /\ (e.g.t # "nil" =>
                   /\ e.err = 0 /\ SEq(e.out, Canon(e.g))                \* and parses back to the same value
                   /\ \A i \in 1..7 : e.typed[i] = (IF Canon(e.g).t = Kinds[i] THEN 1 ELSE 2))
-RespOk(e) == e.err = 0 /\ SEq(e.out, Canon(e.g))
+RespOk(e) == /\ e.err = 0 /\ SEq(e.out, Canon(e.g))
+             /\ \A i \in 1..7 : e.typed[i] = (IF Canon(e.g).t = Kinds[i] THEN 1 ELSE 2)   \* typed functions: own kind only
 Ok(e) == CASE e.k = "wkt" -> WktOk(e) [] e.k = "resp" -> RespOk(e) [] OTHER -> FALSE
 Init == l = 1 /\ bad = {}
 Next == /\ l <= Len(Trace) /\ l' = l + 1
